@@ -7,7 +7,7 @@ import os
 import fullstack
 import sockcheck
 
-LEAN_MODULES = ["PyAirtouch.Props.C15"]
+LEAN_MODULES = ["PyAirtouch.Props.C15", "PyAirtouch.Props.C15At4", "PyAirtouch.Props.C15At5"]
 LEVEL = "proof"
 MONITORS = ["c15", "c07a", "c07b", "c07c"]
 
